@@ -530,22 +530,31 @@ def run_shard(ctx):
                 fb = {("only",): b"b"}
             indexlab.save_tree_to_cache(ctx, cache, fa, d, name="a-src")
             indexlab.save_tree_to_cache(ctx, cache, fb, d, name="b-src")
-            A = indexlab.explicit_index(fa, (), (), cache_odb=cache)
-            B = indexlab.explicit_index(fb, (), (), cache_odb=cache)
+            # (with copies every path has an inode of its own, so executable entries can be told apart)
+            xa = {k for k in fa if rng.random() < 0.3} if link == "copy" else set()
+            xb = {k for k in fb if (k in xa and fa.get(k) == fb.get(k)) or rng.random() < 0.15} if link == "copy" else set()
+            A = indexlab.explicit_index(fa, (), xa, cache_odb=cache)
+            B = indexlab.explicit_index(fb, (), xb, cache_odb=cache)
             um = rng.random() < 0.5
             cfg = {"link": link, "update_meta": um, "a": sorted("/".join(k) for k in fa), "b": sorted("/".join(k) for k in fb)}
             res.evaluated()
             res.count("there_and_back_histories")
             errs = []
-            steps = [("A", None, A, fa), ("B-over-A", A, B, fb), ("A-over-B", B, A, fa)]
+            steps = [("A", None, A, fa, xa), ("B-over-A", A, B, fb, xb), ("A-over-B", B, A, fa, xa)]
             if rng.random() < 0.5:
-                steps.append(("B-over-A-again", A, B, fb))
-            for name, old_, new_, want in steps:
+                steps.append(("B-over-A-again", A, B, fb, xb))
+            for name, old_, new_, want, wantx in steps:
                 apply(compare(old_, new_, delete=True), ws, fs, update_meta=um, storage="cache", onerror=lambda s_, dst, e: errs.append((name, dst, repr(e))), links=[link])
                 got = walk_files(ws)
                 if got != want or errs:
                     miss, extra = sorted(set(want) - set(got))[:2], sorted(set(got) - set(want))[:2]
                     res.violation(f"not-converged/same-handles-in-both-roles/{name}", f"after {name}: missing={miss} extra={extra} errors={errs[:1]}", case=case, detail=cfg)
+                    break
+                notx = sorted(k for k in wantx if not (os.stat(os.path.join(ws, *k)).st_mode & stat.S_IXUSR))
+                if wantx:
+                    res.count("exec_entries_checked", len(wantx))
+                if notx:
+                    res.violation(f"exec-entry-not-executable/same-handles-in-both-roles/{name}", f"after {name}: {['/'.join(k) for k in notx[:2]]} should be executable", case=case, detail=cfg)
                     break
             env.reset_staging()
             ctx.drop(d)
